@@ -110,6 +110,11 @@ PROPS = {
         "nontrivial": {"inexact", "edge", "setint", "setrat", "newdec", "range"},
         "rule": ARITH_RULE + "conversions Int Int64 Uint64 Rat IsInt MinPrec Sign and setters SetInt SetInt64 SetUint64 SetRat NewDecimal; non-trivial = truncation happened, value within the 2^63/2^64/10^19 edge band, or a big-integer/rational setter",
     },
+    "C17": {
+        "gens": [{"name": "C17", "quick": 2500, "thorough": 12000}],
+        "nontrivial": {"rejected", "accepted", "into-nonzero-prec", "acc", "mode", "inexact"},
+        "rule": ARITH_RULE + "GobEncode/GobDecode directly and through encoding/gob; hostile payloads: valid encodings truncated at a random length, one bit/byte flipped, extended, attribute byte replaced, a word >= 10^19, zero top word, precision below the digits sent, random bytes; non-trivial = a mutated payload (accepted or rejected), a non-default attribute, or decoding into a receiver with its own precision",
+    },
     "C19": {
         "gens": [{"name": "C19", "quick": 200, "thorough": 1200}],
         "nontrivial": {"nan", "latched", "had-error", "propagates", "inexact"},
